@@ -216,9 +216,13 @@ pub const B_DECLS: &[(&str, &str)] = &[
   ("b-reexports-c", "export * from \"./c.ts\";\n"),
   ("b-unused", "function bUnused@N(): void {}\n"),
   ("b-imports-cv", "import { cv } from \"./c.ts\";\nexport const fromCv: typeof cv = 1;\n"),
+  ("b-imports-cg", "import { cg } from \"./c.ts\";\nexport const fromCg: typeof cg = cg;\n"),
 ];
 
-pub const C_SRC: &str = "export interface CT { c: number }\nexport const cv: number = 1;\n";
+/// c.ts: two names that different modules ask for separately (so the module is
+/// traced more than once), each leading to an overloaded function whose
+/// implementation signature mentions a type nothing public refers to
+pub const C_SRC: &str = "interface COptsA { a: string }\ninterface COptsB { b: string }\nexport function cf(v: string): string;\nexport function cf(v: number): number;\nexport function cf(v: COptsA | string | number): string | number { return v as string; }\nexport function cg(v: string): string;\nexport function cg(v: number): number;\nexport function cg(v: COptsB | string | number): string | number { return v as string; }\nexport interface CT { c: number; f?: typeof cf }\nexport const cv: number = 1;\n";
 
 pub struct GenPkg {
   pub pkg: FcPackage,
